@@ -168,3 +168,33 @@ func H18_shared() {
 	sv.Assert("equal-iff-same-rendering", sv.StrEq(shared.Vl().String(), plain.Vl().String()) == eq)
 	sv.Reach("compared")
 }
+
+// strings that need escaping, next to the strings that spell those escapes
+// out (a, backslash, n  versus  a, line feed): whatever turns a string into a
+// key or a rendering must keep each pair apart
+var c18Strings = []string{
+	"", "a", "A", "a b", "a\n", "a\\n", "\t", "\\t", "\"", "\\\"", "\\", "\\\\", "é", "\\u00e9", "é́",
+	"\x00", "\\x00", "\xff", "\\xff", "�", "'", "`", "a\"", "\"a", "1", "true",
+}
+
+// H18_str: the sameness laws on pairs of strings, in particular strings that
+// differ only in how an escape sequence is spelled.
+func H18_str() {
+	a := c18Strings[sv.Choice("x", len(c18Strings))]
+	b := c18Strings[sv.Choice("y", len(c18Strings))]
+	x, y := val.Str(a), val.Str(b)
+	sv.Assert("equality-is-identity-of-strings", val.Equals(x, y) == (a == b))
+	sameness(x, y, true)
+	// as keys of one map
+	m := val.Map(types.Map(types.Str, types.Num).Map()).Map()
+	m.Put(x, val.Num(1))
+	m.Put(y, val.Num(2))
+	want := 2
+	if a == b {
+		want = 1
+	}
+	sv.Assert("distinct-strings-are-distinct-keys", len(m.V) == want)
+	// and inside containers
+	sameness(list1(x), list1(y), false)
+	sv.Reach("compared")
+}
